@@ -600,6 +600,19 @@ class CFG:
             raise AnalysisError(f'{self.fi.key}: path enumeration cap {cap} exceeded')
         return out
 
+    def dominating_conditions(self, node: 'Node'):
+        """[(test node, polarity)]: atoms that hold on every path from the entry to `node` (the path must
+        take that edge of the test).  `not`, and/or and if/else orientation are already lowered away."""
+        out = []
+        for t in self.nodes:
+            if t.kind != 'test':
+                continue
+            for lab in (True, False):
+                edges = [(t, s2, l2) for s2, l2 in t.succ if l2 is lab]
+                if edges and self.must_pass(self.entry, node, through_edges=edges):
+                    out.append((t, lab))
+        return out
+
     # -- reaching definitions ------------------------------------------------
     def node_defs(self, n: Node) -> list[tuple[str, str, object]]:
         """(name, how, payload) defined by node n."""
